@@ -130,6 +130,14 @@ def forward(m0: int, m1: int, m2: int, p0: int, p1: int, c0: int, v0: int, v1: i
     second = CFG.get('second', False)
     with concrete():
         env = envkit.new_env()
+        if CFG.get('prior_conn'):
+            # an earlier, unrelated connection of the same process whose request nominates hop-by-hop headers in its Connection
+            # header: whatever the proxy does for THAT request must not change how later connections are forwarded
+            h0, cs0 = envkit.make_handler(FLAGS, env, name='earlier')
+            cs0.inq.append(b'GET http://h.example/p HTTP/1.1\r\nHost: h.example\r\nConnection: keep-alive, X-A, Accept\r\nX-A: 1\r\n'
+                           b'Accept: q\r\n\r\n')
+            if run(h0.handle_events([cs0.fd], [])):
+                return fail('teardown on the earlier connection')
         h, cs = envkit.make_handler(FLAGS, env)
         if second:
             cs.inq.append(b'GET http://h.example/first HTTP/1.1\r\nHost: h.example\r\n\r\n')
@@ -168,7 +176,8 @@ def forward(m0: int, m1: int, m2: int, p0: int, p1: int, c0: int, v0: int, v1: i
     why, what = check_forwarded(sent, exp)
     if why is not None:
         return fail(why, what=repr(what), sent=repr(sent[:200]))
-    if len(env.connects) != 1 or env.connects[0][0] != ('h.example', 8080 if CFG.get('port') else 80):
+    mine = env.connects[1:] if CFG.get('prior_conn') else env.connects
+    if len(mine) != 1 or mine[0][0] != ('h.example', 8080 if CFG.get('port') else 80):
         return fail('connected elsewhere', connects=repr(env.connects))
     return ok()
 
@@ -245,6 +254,8 @@ def obligations(tier):
             for c1 in range(max(1, head - 2), n):
                 for c2 in range(c1 + 1, n):
                     add('cut.%s.at%d_%d' % (nm, c1, c2), method=1, framing=fr, blen=bl, layout=lay, nheaders=0, cuts=[c1, c2])
+    add('headers.n2.after_nominating_connection', nheaders=2, prior_conn=True)
+    add('headers.n2.cad.after_nominating_connection', nheaders=2, extra='cad', prior_conn=True)
     add('second.plain', second=True)
     add('second.cad', second=True, extra='cad')
     add('port.explicit', port=True)
@@ -260,7 +271,8 @@ META = {
                  'leading space) plus optional Proxy-Connection, Proxy-Authorization and two operator-disabled headers; body none / '
                  'Content-Length 0,1,3 symbolic bytes / chunked layouts [],[1],[2,1],[3], framing header name spelled canonically or in lower case with a '
                  'symbolic-case first letter; delivered whole and cut at every position of the body '
-                 'region and selected head positions; as first, as second and (after a chunked second request) as third request of the connection',
+                 'region and selected head positions; as first, as second and (after a chunked second request) as third request of the connection; after an earlier connection of the same '
+                 'process whose request nominated headers in Connection',
         'thorough': 'plus every pair of cuts in the body region',
     },
     'outside': 'header values with internal whitespace, obs-fold, duplicate names (excluded by the property); more than 3 body bytes; '
